@@ -10,7 +10,7 @@ TUN = ('model checking (TLC, complete in the quick configurations) of an impleme
        'TLA+ property observers + event-by-event replay conformance of TLC-generated behaviours (advisory SPEC-DRIFT)')
 CLAIMED = {
  'C03': dict(tech=TUN + '; schedules from TLC simulation of Tunnel.tla, seeded walks (virtual time, synctest) and multi-sender runs in scaled real time',
-   text='Tunnel.tla (sender, ack relays, sequence mutex as FIFO queue, reconnect) is model-checked exhaustively in small configurations incl. the sequence wrap (OneInFlight, MutexHeld, BusNoDup) and simulated against the TunObs observers; every behaviour projected onto environment choices, plus seeded fault walks incl. the 255->0 wrap, TCP mode and 2..8 concurrent senders, is executed on the real knx.Tunnel over an in-memory socket and each recorded trace is judged by TLC with the C03 clauses (OneInFlight, RetxIdentical, RetxPeriod, AckedConsecutive, SuccessNeedsAck, ErrAckFails, ReturnDeadline, TcpOneShot). Bounded exploration, not a proof.',
+   text='Tunnel.tla (sender, ack relays, sequence mutex as FIFO queue, reconnect) is model-checked exhaustively in small configurations incl. the sequence wrap (OneInFlight, MutexHeld, BusNoDup) and simulated against the TunObs observers; every behaviour projected onto environment choices, plus seeded fault walks incl. the 255->0 wrap, TCP mode and 2..8 concurrent senders, is executed on the real knx.Tunnel over an in-memory socket and each recorded trace is judged by TLC with the C03 clauses (OneInFlight, RetxIdentical, RetxPeriod, AckedConsecutive, SuccessNeedsAck, ErrAckFails, ReturnDeadline, TcpOneShot); matching acknowledgements with every status code 1..255 (family ack-status; a run in which the client kills the process is ClientCrashed for every tunnel property). Bounded exploration, not a proof.',
    note='trusted: the Go simulation of socket/network/gateway (its events are part of the judged trace), the event recorder linearization (In recorded atomically with the hand-off, Out inside the socket Send), TLC. Multi-sender contention only in real time (lower time bounds exact, upper bounds lenient).'),
  'C04': dict(tech=TUN, text='Receiver clauses (DeliverIff, AckExact/AckMissing/AckSpurious, NoDupDelivery, NothingLost, TCP variant) judged by TLC on traces of the real client for adversarial request streams (own/foreign channel, seq -2..+3 and +128, up to 1000 requests across the wrap, reader stalls, reconnects), plus TLC-generated behaviours with forged requests (AdvReq).',
    note='same trusted base as C03; "accepted" is observed at the socket hand-off (In event), delivery at the application receive.'),
@@ -33,7 +33,7 @@ CLAIMED = {
 }
 COD = 'TLA+ reference specification evaluated by TLC over input/output records logged from the real codec (record validation); theorems of the reference checked by TLC over finite domains'
 CLAIMED.update({
- 'C01': dict(tech=COD, text='Every truncation of valid frames of all 13 encodable + 3 decode-only services and 9 cEMI payload kinds, every octet replaced by the boundary alphabet {0,1,2,3,4,6,8,rem-1,rem,rem+1,54,255} (embedded lengths disagreeing with the bytes present), description blocks of length 0/1/3/200, and seeded random strings up to 1024 bytes; each decoded from an exact-capacity slice and as prefix of a 0xAA-filled and of a valid-frame-filled larger buffer, in a goroutine with panic capture and a 3 s watchdog. TLC evaluates NoPanic, Terminates, ConsumedWithin, InputOnly on every record.',
+ 'C01': dict(tech=COD, text='Every truncation of valid frames of all 13 encodable + 3 decode-only services and 9 cEMI payload kinds, every octet replaced by the boundary alphabet {0,1,2,3,4,6,8,rem-1,rem,rem+1,54,255} (embedded lengths disagreeing with the bytes present), description blocks of length 0/1/3/200, and seeded random strings up to 1024 bytes; each decoded from an exact-capacity slice and as prefix of a 0xAA-filled and of a valid-frame-filled larger buffer, in a goroutine with panic capture and a 3 s watchdog. The input buffer is overwritten (differently per variant) before the decoded value is rendered, as a receiver that reuses its buffer does. TLC evaluates NoPanic, Terminates, ConsumedWithin, InputOnly on every record.',
    note='the socket-receiver clause (a malformed frame does not prevent later frames) is exercised with the C16 loopback check, not here; inputs are enumerated structurally, not all 256^n strings.'),
  'C02': dict(tech=COD, text='Every service type x every cEMI payload kind over boundary and seeded field values: encode, decode, project both onto the vocabulary of spec/Knxnet.tla; TLC checks decoded = canonical(input) (RoundTrip) and decode(encode(decoded)) = decoded (Stable).',
    note='the Go<->record projection (table-driven glue in harness/codec/knxnet_test.go) is trusted; "accepts the whole encoding" is read as "decodes without error".'),
@@ -47,7 +47,7 @@ CLAIMED.update({
    note='tokenisation (split + strconv.Atoi) is the trusted lexical step.'),
 })
 CLAIMED.update({
- 'C06': dict(tech=COD, text='For every registered type: decode, re-encode, decode over the payload domains (all 2^6/2^8 encodings, all 2^16 encodings of the 3-byte types in the thorough tier and of 8 representatives in the quick tier, corner x full products and stratified IEEE classes of the 5-byte types, structured samples of the others). TLC checks Reaccepted, SameValue (bit patterns / fields) and, for exact families, ByteIdentical against the canonical re-encoding CanonB of spec/Dpt.tla. TLC also proves on the reference that all 65,536 two-octet float words re-encode drift-free.',
+ 'C06': dict(tech=COD, text='For every registered type: decode, re-encode, decode over the payload domains (all 2^6/2^8 encodings, all 2^16 encodings of the 3-byte types in the thorough tier and of 8 representatives in the quick tier, corner x full products and stratified IEEE classes of the 5-byte types, structured samples of the others). Every accepted payload is also decoded into a long-lived receiver that holds earlier values (same value, verdict and re-encoding demanded). TLC checks Reaccepted, SameValue (bit patterns / fields) and, for exact families, ByteIdentical against the canonical re-encoding CanonB of spec/Dpt.tla. TLC also proves on the reference that all 65,536 two-octet float words re-encode drift-free.',
    note='value comparison is on raw bit patterns / fields logged by reflection; no float arithmetic outside the code under test.'),
  'C07': dict(tech=COD, text='Encode direction for every registered type: Length / leading byte, SelfDecodable, OneStep (scaled families, in exact fixed-point arithmetic in TLA+), Monotone (adjacent sorted inputs), Saturates (out-of-range inputs land within one step of the bound; validity-gated structs give the zero payload), exact encodings of the integer / bit-field / IEEE families.',
    note='sampled float inputs (boundary neighbourhoods + log-uniform), complete field products for structs.'),
